@@ -698,6 +698,10 @@ func (s *Server) filterBatchLocked(next jmessages) jmessages {
 			delete(s.call, id)
 			rsp.ch <- req
 			s.log("Received response for callback %q", id)
+		} else if s.allowP && req.M == "" && (req.E != nil || req.R != nil) {
+			// A late, duplicate or unsolicited reply. Answering it with an error
+			// would reuse an ID from the client's own ID space.
+			s.log("Discarding response for unknown callback %q", id)
 		} else {
 			keep = append(keep, req)
 		}
